@@ -518,6 +518,13 @@ silent("C13", "dimension test spelled on the grid attribute",
        ("sub", "cubic.py", "            alt_volume = self._calculate_alternative_volume(shape)\n\n            def _fourier2",
         "            alt_volume = self._calculate_alternative_volume(shape)\n            dim = len(shape)\n\n            def _fourier2"))
 
+fire("C13", "cube reader converts origin and axes in a loop placed after the grid-only exit", "cube-reader-exits-agree",
+     ("sub", "cubic.py", "                axes *= ANGSTROM_TO_BOHR\n                origin *= ANGSTROM_TO_BOHR\n", "                pass\n"),
+     ("sub", "cubic.py", "                coordinates *= ANGSTROM_TO_BOHR\n",
+      "                for lengths in (origin, axes, coordinates):\n                    lengths *= ANGSTROM_TO_BOHR\n"))
+silent("C13", "cube reader converts origin and axes in a loop before the grid-only exit",
+       ("sub", "cubic.py", "                axes *= ANGSTROM_TO_BOHR\n                origin *= ANGSTROM_TO_BOHR\n",
+        "                for lengths in (axes, origin):\n                    lengths *= ANGSTROM_TO_BOHR\n"))
 fire("C13", "2-D Fourier2 weights built transposed by broadcasting", "tensor-weight-layout",
      ("sub", "cubic.py", "                weight = np.einsum(\"ij,i,j->ij\", weight, weight_x, weight_y) * alt_volume\n",
       "                weight = weight_x[None, :] * weight_y[:, None] * alt_volume\n"))
